@@ -61,6 +61,8 @@ struct Plan {
     /// where the time limits are configured: 0 = on the request, 1 = on the session the request is made
     /// from, 2 = loose limits on the session, the real ones on the request (which must win)
     limits_on: u8,
+    /// Plain route only: the URL names the origin by an IPv6 literal
+    host_v6: bool,
     /// `timeout(Duration::MAX)` is configured although `t_ms` is None
     t_duration_max: bool,
     drop_after_calls: Option<usize>,
@@ -89,6 +91,24 @@ fn gen(g: &mut G, thorough: bool) -> Plan {
         _ => Family::UploadStall,
     };
     let mut body = bodyx::gen_plan(g, if thorough { 20_000 } else { 6_000 });
+    if fam == Family::NoFalseTimeout && g.chance(1, 5) {
+        // a gzip- or deflate-coded body: the decoders sit between the caller and the deadline logic
+        use std::io::Write;
+        let payload = body.payload.clone();
+        let (label, coded): (&str, Vec<u8>) = if g.chance(1, 2) {
+            let mut e = flate2::write::GzEncoder::new(Vec::new(), flate2::Compression::default());
+            e.write_all(&payload).unwrap();
+            ("gzip", e.finish().unwrap())
+        } else {
+            let mut e = flate2::write::DeflateEncoder::new(Vec::new(), flate2::Compression::default());
+            e.write_all(&payload).unwrap();
+            ("deflate", e.finish().unwrap())
+        };
+        body = bodyx::plan_from_payload(g, coded, vec![("Content-Encoding".to_string(), label.as_bytes().to_vec())]);
+        // what the caller must read is the decoded payload
+        body.payload = payload;
+        g.probe("coded-body-under-a-deadline");
+    }
     body.faults = ConnFaults { window: 64 * 1024, coalesce: g.chance(1, 4), timeout_is_timed_out: g.chance(1, 3), ..Default::default() };
     body.host_is_domain = g.chance(1, 2);
     if !matches!(body.read_mode, bodyx::ReadMode::Sizes(..)) {
@@ -118,6 +138,7 @@ fn gen(g: &mut G, thorough: bool) -> Plan {
         upload: 0,
         think: Vec::new(),
         think_after_end_ms: None,
+        host_v6: false,
         t_duration_max: false,
         limits_on: match g.below(6) {
             0 => 1,
@@ -129,6 +150,10 @@ fn gen(g: &mut G, thorough: bool) -> Plan {
         scripts: Vec::new(),
         phase: "",
     };
+    if p.route == Route::Plain && matches!(fam, Family::NoFalseTimeout | Family::Stall | Family::Drip) && g.chance(1, 6) {
+        p.host_v6 = true;
+        g.probe("origin-named-by-ipv6-literal");
+    }
     match fam {
         Family::NoFalseTimeout => {
             // also "no limit" as callers write it: the largest Duration there is
@@ -174,6 +199,13 @@ fn gen(g: &mut G, thorough: bool) -> Plan {
             };
             p.t_ms = t;
             p.r_ms = r;
+            if fam == Family::Stall && g.chance(1, 12) {
+                // the smallest read timeout a caller can write: refused by the socket layer at once - the
+                // call must not sit on a silent peer without any limit
+                p.t_ms = None;
+                p.r_ms = 0;
+                g.probe("read-timeout-is-zero");
+            }
             if fam == Family::Drip && t.is_none() {
                 p.t_ms = Some(*g.pick(&[200u64, 1000, 5000]));
             }
@@ -273,7 +305,13 @@ struct Obs {
 
 fn caller(p: &Plan) -> Obs {
     let mut o = Obs::default();
-    let host = if p.body.host_is_domain { bodyx::HOST_NAME } else { bodyx::HOST_IP };
+    let host = if p.host_v6 {
+        "[2001:db8::1]"
+    } else if p.body.host_is_domain {
+        bodyx::HOST_NAME
+    } else {
+        bodyx::HOST_IP
+    };
     let url = if p.route == Route::Plain { format!("http://{}/hop0", host) } else { "https://secure.test/hop0".to_string() };
     o.start = attosim::now_ns();
     let t_in = o.start;
@@ -436,6 +474,8 @@ fn run(p: &Plan, ctx: &RunCtx) -> bodyx::Ran<Obs> {
         Route::Plain => {
             let mk = mk_http.clone();
             sim.add_listener(ip, 80, lat, Some(Box::new(move |_info| mk())));
+            let mk = mk_http.clone();
+            sim.add_listener("2001:db8::1".parse().unwrap(), 80, lat, Some(Box::new(move |_info| mk())));
         }
         Route::Tls => {
             let sip: IpAddr = "10.0.0.5".parse().unwrap();
